@@ -53,7 +53,7 @@ CLAIMS = {
                  "the attribute names written by save and read by the loaders, "
                  "definite assignment of constructor activations under the "
                  "loaders' call-site constants, one edge enumeration for link "
-                 "count and graph, mirrored stores for undirected link attributes. Also a freshness typestate: the vertex attribute carrying node weights into a file is attached by save() or re-attached by every graph rebuild."),
+                 "count and graph, mirrored stores for undirected link attributes. Also a freshness typestate: the vertex attribute carrying node weights into a file is attached by save() or re-attached by every graph rebuild; attribute names are resolved through module/class constants and constant tuples (a reader may accept several); edge arrays built from an edge list are made (E, 2) for E = 0 before their columns are selected (S7)."),
         "note": ("Does NOT decide what igraph preserves per file format, "
                  "degenerate edge lists or numeric equality of weights."),
         "technique": "who-may-write, def-use and definite-assignment analysis over Python ast effect trees",
@@ -65,7 +65,12 @@ CLAIMS = {
                  "return value, a value obtained from a held object, or a caller's "
                  "argument is an obligation; only proven restore pairs and "
                  "documented in-place functions discharge it. Holds for all call "
-                 "orders, which tests cannot enumerate."),
+                 "orders, which tests cannot enumerate. Also: a memoised method "
+                 "never edits arrays of the object's own state, directly or through "
+                 "a view (P5); `param op= e` on a bare parameter of a public function "
+                 "is an edit of the caller's array unless the parameter is declared "
+                 "scalar or the edit documented; values returned through a registry "
+                 "of functions and row views `a[i][j] = v` are followed."),
         "note": ("Decides array edits only (not 'a random query repeats "
                  "identically'); assumes path-length matrices have a zero diagonal "
                  "(restore idiom); closures/dynamic callables not followed; "
@@ -80,7 +85,7 @@ CLAIMS = {
                  "copy after every public rewrite of the matrix (must-pass-through); "
                  "all thresholding siblings use one relation and exclude missing "
                  "states as rows and columns; N stored next to a matrix is its "
-                 "size; the adaptive kernel links a state to its own neighbours. Also: library calls in kernels respect argument types (T6), block assemblies are sized by the series the plots were built from (T7), distance kernels keep intermediates at input precision (T8), the adjacency handed to Network.__init__ is a cleared copy also through helper methods."),
+                 "size; the adaptive kernel links a state to its own neighbours. Also: library calls in kernels respect argument types (T6), block assemblies are sized by the series the plots were built from (T7), distance kernels keep intermediates at input precision (T8), the adjacency handed to Network.__init__ is a cleared copy also through helper methods and keeps the shape of the recurrence matrix (T10: N is shared by plot and network); a size measured on the freshly built joint matrix is not overwritten later in the method (T11); the missing-value mask is computed on the embedded states (T12)."),
         "note": "Does NOT decide distance kernels, quantiles, neighbourhood sizes or NaN semantics of values.",
         "technique": "kernel-boundary type inference, must-pass-through over effect trees, sibling agreement",
     },
@@ -122,7 +127,7 @@ CLAIMS = {
                  "siblings count under the same link tests over the same role "
                  "domains; role-suffixed locals are computed from the matching node "
                  "list; sub-block helpers return copies; edge-loop fills mirror "
-                 "independently; virtual calls survive the coupled overrides. Also: tested links have the same orientation in compiled and sparse siblings, and results built through igraph's order-normalising subgraph() are mapped back to the caller's node order (X7)."),
+                 "independently; virtual calls survive the coupled overrides. Also: tested links have the same orientation in compiled and sparse siblings, and results built through igraph's order-normalising subgraph() are mapped back to the caller's node order (X7); a loop over igraph edges stores the reversed orientation only on paths the directed flag excludes (X8)."),
         "note": "Does NOT decide equality with sub-block definitions or limits.",
         "technique": "sibling guard-set agreement (Cython vs Python loop IR), role dataflow, override-signature check",
     },
@@ -203,7 +208,9 @@ CLAIMS = {
                  "stores, then rebuilds the admittance on the network's links and "
                  "then R, in that order; C01's coherence rules restricted to "
                  "ResNetwork; current-flow kernels applicable; no conjugating "
-                 "product in the defining sums."),
+                 "product in the defining sums; no path of update_resistances "
+                 "returns before the rebuild (a 'nothing changed' shortcut is sound "
+                 "only against a private copy)."),
         "note": "Does NOT decide the circuit laws (metric, Foster, series/parallel).",
         "technique": "ordering/def-use rules over Python ast, reuse of the cache-coherence analysis",
     },
